@@ -39,7 +39,7 @@ def run_config(p, d, cfg, timeout=180):
             args = ["-c"] + args
         timeout = max(timeout, 900)
     return D.run_souffle(p, d, args=args, outsub="out_" + hashlib.md5(cfg.name.encode()).hexdigest()[:8], timeout=timeout,
-                         env=cfg.env, dl=dlname, jobs=cfg.jobs)
+                         env=cfg.env, dl=dlname, jobs=cfg.jobs, prefix=getattr(cfg, "out_prefix", ""))
 
 
 def shrink(p, fails, budget=60):
